@@ -135,10 +135,46 @@ fn host_main(sc: &Scenario, host: u64, meta_out: Arc<Mutex<Vec<ProbeMeta>>>, tmp
         client_handles.push(simrt::rt::spawn_on(format!("client-{}", i), None, c));
     }
     // Builder borrows env; execute consumes env: detach the parts we still need first
+    let np = b.np;
     let Builder { sinks, host, .. } = b;
+    rec::with(|r| r.n_probes = np);
+    // collect_channel sinks are drained by a consumer thread that stamps every arrival
+    let mut sinks2 = Vec::new();
+    let mut consumers = Vec::new();
+    for (id, kind, h) in sinks {
+        match h {
+            crate::job::SinkHandle::Chan(rx) if host == 0 => {
+                consumers.push((
+                    id,
+                    simrt::rt::spawn_on(format!("sink-consumer-{}", id), None, move || {
+                        let mut v = Vec::new();
+                        while let Ok(e) = rx.recv() {
+                            let now = simrt::rt::now_ns();
+                            let eid = e.id;
+                            rec::with(|r| r.marks.entry((9001, (0, 0, 0))).or_default().push((eid, now as i64, id as i64)));
+                            v.push(e);
+                        }
+                        v
+                    }),
+                ));
+            }
+            h => sinks2.push((id, kind, h)),
+        }
+    }
     let r = std::panic::catch_unwind(std::panic::AssertUnwindSafe(|| env.execute_blocking()));
-    let harvest = Builder2 { sinks, host };
+    let harvest = Builder2 { sinks: sinks2, host };
     harvest.harvest();
+    for (id, c) in consumers {
+        let v = if r.is_ok() {
+            c.join().unwrap_or_default()
+        } else {
+            // after a failed run the sending side may never be dropped: do not wait for it
+            Vec::new()
+        };
+        rec::with(|rc| {
+            rc.sinks.insert((id, 0), if r.is_ok() { crate::rec::SinkValue::Vec(v) } else { crate::rec::SinkValue::None });
+        });
+    }
     for c in client_handles {
         let _ = c.join();
     }
